@@ -30,7 +30,9 @@ def run(ctx):
     batch = []
     for name, lib in libs_:
         kind = 'gas' if name in ('BensonGA', 'PPY') else 'surface'
-        pool = list((G.FIXED_GAS if kind == 'gas' else G.FIXED_SURFACE)[:ctx.n(10, 40)])
+        pool = list(G.MIX_GAS if kind == 'gas' else G.MIX_SURFACE)
+        if ctx.thorough():
+            pool += list((G.FIXED_GAS if kind == 'gas' else G.FIXED_SURFACE)[:40])
         for _ in range(ctx.n(8, 60)):
             pool.append(G.gen_smiles(rng, kind, rng.choice([2, 4, 7, 10])))
         pool.append(G.gen_smiles(rng, kind, 4, oov=True))
@@ -38,7 +40,7 @@ def run(ctx):
         res = {s: S.impl_descriptors(lib, s) for s in pool}
         pairs = list(itertools.product(pool, pool))
         rng.shuffle(pairs)
-        for a, b in pairs[:ctx.n(150, 4000)]:
+        for a, b in pairs[:ctx.n(260, 4000)]:
             if ctx.time_left() < 60:
                 break
             check_pair(ctx, name, lib, [a, b], [res[a], res[b]], batch)
